@@ -656,6 +656,75 @@ def c06_recorded_graph(res):
             _ok(res, sig)
 
 
+def c06_buffers_and_optimizers(res):
+    """(a) Output buffers under NESTED forward / reverse differentiation (depth 1-3, keyword and positional
+    spelling): the value handed back at every level is NumPy's and the caller's buffer holds the primal afterwards.
+    (b) The bundled optimizers (sgd, rmsprop, adam) leave the start point they were given bit-for-bit unchanged and
+    return a result that shares no memory with it - for a bare ndarray as well as for list / dict / tuple trees."""
+    import autograd.numpy as anp
+    from autograd import grad
+    from autograd.core import make_jvp, make_vjp
+    from autograd.misc.optimizers import adam, rmsprop, sgd
+
+    x = onp.array([0.3, -1.2, 0.8])
+    one = onp.ones(3)
+    forms = {
+        "negative_positional": (lambda t, b: anp.negative(t, b), lambda t: -t),
+        "negative_keyword": (lambda t, b: anp.negative(t, out=b), lambda t: -t),
+        "multiply_positional": (lambda t, b: anp.multiply(t, 2.5, b), lambda t: 2.5 * t),
+        "multiply_keyword": (lambda t, b: anp.multiply(t, -0.5, out=b), lambda t: -0.5 * t),
+        "cumsum_positional": (lambda t, b: anp.cumsum(t, None, None, b), lambda t: onp.cumsum(t)),
+    }
+    for name, (f, ref) in forms.items():
+        for depth in (1, 2, 3):
+            res["evaluations"] += 1
+            sig = {"engine": "values", "family": "out_buffer_nested", "fn": name, "depth": depth}
+            case = {"kind": "buffers_optimizers", "fn": name, "depth": depth}
+            buf = onp.zeros(3)
+            try:
+                with warnings.catch_warnings():
+                    warnings.simplefilter("ignore")
+                    g = lambda t: f(t, buf)
+                    if depth == 1:
+                        val, tan = make_jvp(g, x)(one)
+                    elif depth == 2:
+                        val, tan = make_jvp(lambda t: make_jvp(g, t)(one)[0], x)(one)
+                    else:
+                        val, tan = make_jvp(lambda t: make_jvp(lambda u: make_jvp(g, u)(one)[0], t)(one)[0], x)(one)
+            except Exception as e:
+                _viol(res, sig, "exception:" + type(e).__name__, case, traceback.format_exc()[-300:])
+                continue
+            want = ref(x)
+            if find_boxes(val) or not same_value(onp.asarray(val), want) or not same_value(buf, want) or not onp.allclose(tan, ref(one) - ref(onp.zeros(3)), atol=1e-14):
+                _viol(res, sig, "primal_mismatch", case, "depth-%d forward mode through %s: value %s, buffer %s, NumPy %s, tangent %s" % (depth, name, describe(val), describe(buf), describe(want), describe(tan)))
+            else:
+                _ok(res, sig)
+    trees = {"ndarray": (lambda: onp.array([0.5, -1.5, 2.0]), lambda p: anp.sum(p * p)), "ndarray_2d_F": (lambda: onp.asfortranarray(onp.array([[0.5, -1.5], [2.0, 1.0]])), lambda p: anp.sum(p * p)),
+             "list": (lambda: [onp.array([0.5, -1.5]), onp.array(2.0)], lambda p: anp.sum(p[0] * p[0]) + p[1] * p[1]), "dict": (lambda: {"w": onp.array([0.5, -1.5]), "b": onp.array([2.0])}, lambda p: anp.sum(p["w"] ** 2) + anp.sum(p["b"] ** 2)),
+             "tuple_scalars": (lambda: (0.5, -1.5), lambda p: p[0] * p[0] + p[1] * p[1])}
+    for oname, opt in (("sgd", sgd), ("rmsprop", rmsprop), ("adam", adam)):
+        for tname, (mk, loss) in trees.items():
+            res["evaluations"] += 1
+            sig = {"engine": "values", "family": "optimizer_start_point", "optimizer": oname, "tree": tname}
+            case = {"kind": "buffers_optimizers", "optimizer": oname, "tree": tname}
+            x0 = mk()
+            h0 = vhash(x0)
+            try:
+                with warnings.catch_warnings():
+                    warnings.simplefilter("ignore")
+                    out = opt(grad(lambda p, i: loss(p)), x0, num_iters=3, step_size=0.01)
+            except Exception as e:
+                _viol(res, sig, "exception:" + type(e).__name__, case, traceback.format_exc()[-300:])
+                continue
+            shared = any(isinstance(a, onp.ndarray) and isinstance(b, onp.ndarray) and a.size and onp.shares_memory(a, b) for a in common.leaves(out) for b in common.leaves(x0))
+            if vhash(x0) != h0 or shared:
+                _viol(res, sig, "input_modified" if vhash(x0) != h0 else "result_aliases_input", case, "%s on a %s start point: start point now %s, result shares memory with it: %s" % (oname, tname, describe(x0), shared))
+            elif not float(loss(out)) < float(loss(x0)):
+                _viol(res, sig, "primal_mismatch", case, "%s did not decrease the loss" % oname)
+            else:
+                _ok(res, sig)
+
+
 # ================================================================ C14
 
 
@@ -1267,6 +1336,8 @@ def run_shard(pid, tier, seed, idx, n):
             c06_after_caught_failure(res)
         if idx == 2 % n:
             c06_recorded_graph(res)
+        if idx == 3 % n:
+            c06_buffers_and_optimizers(res)
     else:
         rng = onp.random.Generator(onp.random.PCG64([seed, idx, 67]))
         # the C14 workload is small and deterministic: shard by family
@@ -1314,6 +1385,9 @@ def replay(pid, case):
             _ok(res, sig)
     elif k == "after_caught_failure":
         c06_after_caught_failure(res)
+        res["violations"] = [v for v in res["violations"] if v["case"] == case]
+    elif k == "buffers_optimizers":
+        c06_buffers_and_optimizers(res)
         res["violations"] = [v for v in res["violations"] if v["case"] == case]
     elif k == "recorded_graph":
         c06_recorded_graph(res)
